@@ -95,11 +95,17 @@ func pts(r *vproto.Rng) []geom.Point {
 func withEmpties(r *vproto.Rng, n int, mk func(empty bool) interface{}) []interface{} {
 	var out []interface{}
 	run := func() {
-		if r.Chance(0.35) {
-			k := r.Range(1, 4)
-			for i := 0; i < k; i++ {
-				out = append(out, mk(true))
-			}
+		k := 0
+		switch x := r.Intn(100); {
+		case x < 35:
+			k = r.Range(1, 4)
+		case x < 39:
+			k = r.Range(5, 12) // long runs: a bounded skip loop is not enough
+		case x < 40:
+			k = r.Range(13, 40)
+		}
+		for i := 0; i < k; i++ {
+			out = append(out, mk(true))
 		}
 	}
 	run()
@@ -269,6 +275,46 @@ func corpus() []geom.Geom {
 		&geom.Bounds{Min: P(0, 0), Max: P(1, 1)}, &geom.Bounds{Min: P(-inf, 0), Max: P(inf, 0)},
 		geom.NewBounds(), &geom.Bounds{Min: P(2, 0), Max: P(1, 1)},
 		geom.GeometryCollection{nil}, geom.GeometryCollection{P(1, 1), nil},
+		longRuns(0), longRuns(1), longRuns(2), longRuns(3),
+	}
+}
+
+// 17 consecutive members without vertices before, between and after two vertices
+func longRuns(kind int) geom.Geom {
+	const n = 17
+	switch kind {
+	case 0:
+		p := geom.Polygon{}
+		for _, v := range []float64{1, 2} {
+			p = append(p, make([]geom.Path, n)...)
+			p = append(p, geom.Path{P(v, v)})
+		}
+		return append(p, make([]geom.Path, n)...)
+	case 1:
+		m := geom.MultiLineString{}
+		for _, v := range []float64{1, 2} {
+			m = append(m, make([]geom.LineString, n)...)
+			m = append(m, geom.LineString{P(v, v)})
+		}
+		return append(m, make([]geom.LineString, n)...)
+	case 2:
+		m := geom.MultiPolygon{}
+		for _, v := range []float64{1, 2} {
+			for i := 0; i < n; i++ {
+				m = append(m, geom.Polygon(make([]geom.Path, i%3)))
+			}
+			m = append(m, geom.Polygon{{}, {}, {P(v, v)}, {}})
+		}
+		return append(m, make([]geom.Polygon, n)...)
+	default:
+		m := geom.GeometryCollection{}
+		for _, v := range []float64{1, 2} {
+			for i := 0; i < n; i++ {
+				m = append(m, []geom.Geom{geom.MultiPoint{}, geom.GeometryCollection{}, geom.Polygon{{}}, geom.MultiPolygon{{}, {{}}}}[i%4])
+			}
+			m = append(m, geom.GeometryCollection{geom.LineString{}, P(v, v)})
+		}
+		return append(m, geom.LineString{}, geom.GeometryCollection{geom.GeometryCollection{}})
 	}
 }
 
@@ -283,9 +329,9 @@ func gen(seed uint64, tier string) {
 	out := bufio.NewWriter(os.Stdout)
 	defer out.Flush()
 	r := vproto.NewRng(seed)
-	nGeom, nBox, yPairs := 6000, 3000, 1
+	nGeom, nBox, yPairs := 25000, 8000, 2
 	if tier == "thorough" {
-		nGeom, nBox, yPairs = 150000, 60000, 12
+		nGeom, nBox, yPairs = 400000, 150000, 20
 	}
 	fmt.Fprintln(out, "new")
 	for _, g := range corpus() {
